@@ -13,7 +13,7 @@ def indexOf (keys : List Int) (x : Int) : Nat := keys.findIdx (· == x)
 
 /-- `rst[ i ][ j ] += u` -/
 def matAdd (i j u : Nat) (M : List (List Nat)) : List (List Nat) :=
-  M.mapIdx (fun r row => if r = i then row.mapIdx (fun c v => if c = j then v + u else v) else row)
+  M.modify i (fun row => row.modify j (· + u))
 
 /-- `countingRstToCountingMatrix`: zero matrix over the keys, then one accumulation per cycle -/
 def toMatrix (cs : List Cyc) : List (List Nat) × List Int :=
